@@ -328,7 +328,11 @@ func run() int {
 func runReplay(id, testBin string, snap *pipe.Snapshot, replay, outDir string) int {
 	abs, _ := filepath.Abs(replay)
 	scratch, _ := os.MkdirTemp(pipe.ScratchRoot(), "verif-replay-")
-	defer os.RemoveAll(scratch)
+	if os.Getenv("VERIF_KEEP_SCRATCH") != "" {
+		fmt.Fprintf(os.Stderr, "scratch kept: %s\n", scratch) // triage aid
+	} else {
+		defer os.RemoveAll(scratch)
+	}
 	env := pipe.Env("VERIF_SNAP="+snap.Root, "VERIF_OUT="+outDir, "VERIF_TIER=quick", "VERIF_REPLAY="+abs,
 		"VERIF_GOCACHE="+os.Getenv("VERIF_GOCACHE"),
 		"VERIF_SCRATCH_DIR="+scratch, "VERIF_DIR="+verifDir(), "VERIF_SHARD=0", "VERIF_SHARD_SEED=1")
